@@ -279,8 +279,8 @@ def run(repo, rep):
     purity_rules(repo, rep)
     # construction of an HP result must not fail or be off by a degree: the rules of C08 that guard it
     from . import c08
-    c08.validator_rules(repo, rep)
     c08.carry_rule(repo, rep)
+    c08.digit_rules(repo, rep)
 
 
 def controls(repo):
